@@ -13,6 +13,12 @@ CLAIMS = {
          'for every operand value, flag state, mode, architecture version; frame of dp_sem proved once.',
          'Scope: execute() of the opcode classes with condition passed (C05 covers the failing case) and field ranges as '
          'produced by decode; ADR, MOVT and the decode of operands (C06/C07) are not in these theorems.'),
+ 'C02': ('seven representative classes (LDR immediate ARM/Thumb, LDR register ARM, LDRB immediate, LDRSH immediate, STR immediate, '
+         'STRB register) proved equal to the architecture pseudocode with MemU instantiated by the emulator (C13/C14): address for '
+         'offset/pre/post-indexed forms modulo 2^32, width, destination value (incl. legacy rotation, sign extension), base '
+         'write-back only after a successful access, loads to the PC through LoadWritePC; memory hypotheses discharged on flat maps.',
+         'Partial: the remaining ~50 load/store classes (literal, halfword/byte variants, doubleword, unprivileged, exclusive) are '
+         'covered by the regenerated model and the whole-step correspondence only; ThumbEE null checks are excluded (state <> ThumbEE).'),
  'C04': ('execute() of B, BL/BLX (immediate), BLX (register), BX, CBZ/CBNZ and the four PC-write primitives (BranchWritePC, BXWritePC, '
          'ALUWritePC, LoadWritePC) proved equal to the architectural operations for every state, offset, register and PC (incl. wrap '
          'at 2^32); the offset assembled by every branch encoding (A1, A2, T1-T4, BL/BLX T1/T2) proved to be the sign-extended field '
